@@ -11,3 +11,4 @@ for p in "$@"; do
   echo "$out" | grep -A3 '^VIOLATION' | head -${LINES_SHOWN:-12} | cut -c1-300
 done
 git -C /repo checkout -- .
+git -C /repo clean -fdq   # a patch may add files
